@@ -40,6 +40,11 @@ def _weaken(rng, sched, nt, kind):
 
 # ----------------------------------------------------------------------------- part A: limit algorithms
 
+_USIZE_MAX = 2 ** 64 - 1
+# `N<c>`: record_successes(n) with a count at which the usize arithmetic saturates (`TR.Limit.succsCount`)
+_HUGE_COUNTS = "abcde"
+
+
 def _cfg(rng, service):
     kind = rng.choice(["aimd", "vegas"])
     if not service and rng.random() < 0.2:
@@ -59,8 +64,16 @@ def _cfg(rng, service):
     alpha = rng.choice([0, 1, 1, 2, 3])
     beta = alpha + rng.choice([0, 1, 2, 3])
     thr = rng.choice([0, 1, 2, 3, 5, 9]) if not service else rng.choice([0, 1, 2, 3, 5, 10])
+    inc = rng.choice([1, 1, 2, 3])
+    if rng.random() < (0.12 if service else 0.2):
+        # `increase_by` is any usize: a step so large that `current + increase_by` (or `increase_by * n`) does not fit a
+        # usize — the sum saturates, the clamp to max_limit comes after (`TR.Limit.aimdSuccNewSat_eq`); the values around
+        # the point where the sum first overflows included
+        inc = rng.choice([_USIZE_MAX, _USIZE_MAX, _USIZE_MAX - 1, _USIZE_MAX - rng.randint(0, mx + 3), _USIZE_MAX - initial,
+                          min(_USIZE_MAX, _USIZE_MAX - initial + 1), 2 ** 63, 2 ** 63 + rng.randint(0, 3), _USIZE_MAX // 2, 2 ** 32,
+                          rng.choice([2 ** 31, 2 ** 33, 2 ** 62])])
     h = "kind=%s min=%d max=%d initial=%d inc=%d fnum=%d fden=%d thr_ms=%d alpha=%d beta=%d" % (
-        kind, mn, mx, initial, rng.choice([1, 1, 2, 3]), fnum, fden, thr, alpha, beta)
+        kind, mn, mx, initial, inc, fnum, fden, thr, alpha, beta)
     # the construction path: the algorithm's own builder (what older op files meant), `Aimd::new(AimdConfig…)` /
     # `Vegas::new(…)` / `AimdConfig::new().with_…`, or the builders handed out by `AdaptiveLimiterLayer::builder()`
     via = rng.choice(["builder", "builder", "new", "layer"])
@@ -77,7 +90,8 @@ def _prog(rng, n, kind, extra=0.0):
         r = rng.random()
         if extra > 0 and rng.random() < extra:
             if kind == "ctl" and rng.random() < 0.7:
-                s += rng.choice(["N%d" % rng.choice([0, 1, 2, 2, 3, 5, 9]), "N%d" % rng.choice([2, 3, 9]), "R", "K"])
+                s += rng.choice(["N%d" % rng.choice([0, 1, 2, 2, 3, 5, 9]), "N%d" % rng.choice([2, 3, 9]), "R", "K",
+                                 "N" + rng.choice(_HUGE_COUNTS + "259")])
             else:
                 s += rng.choice(["X", "m", "M"])
             continue
@@ -103,7 +117,8 @@ def gen_limit(rng, tier):
     extra = (rng.choice([0.3, 0.5, 0.7]) if kind == "ctl" else rng.choice([0.0, 0.0, 0.1, 0.25]))
     if kind == "ctl" and rng.random() < 0.5:
         # batches of successes just below the ceiling: the SUM must be clamped
-        ops.append("manual warm prog=%s" % "".join(rng.choice(["F", "N1", "N2", "N3", "N9", "L", "S0"]) for _ in range(rng.randint(2, 8))))
+        ops.append("manual warm prog=%s" % "".join(rng.choice(["F", "N1", "N2", "N3", "N9", "L", "S0", "N" + rng.choice(_HUGE_COUNTS + "0")])
+                                                   for _ in range(rng.randint(2, 8))))
     if kind == "vegas" and rng.random() < 0.85:
         # Vegas adjusts only from the 10th sample on: straddle the threshold
         n = rng.choice([7, 8, 9, 9, 10, 12])
@@ -887,6 +902,8 @@ def transitions(case, lines, meta=None):
     fden = int(cfg.get("fden", "2"))
     if kind != "vegas" and fden & (fden - 1) and 0 < int(cfg.get("fnum", "1")) < fden:
         tags.append("L:factor-nondyadic" if not _is_service(case) else "A:factor-nondyadic")
+    if kind != "vegas" and int(cfg.get("inc", "1")) + mx > _USIZE_MAX:
+        tags.append("L:step-saturates" if not _is_service(case) else "A:step-saturates")
     if not _is_service(case):
         tags.append("L:kind-" + kind)
         tags.append("L:via-" + cfg.get("via", "builder"))
@@ -894,6 +911,8 @@ def transitions(case, lines, meta=None):
             for ch in kvs(o).get("prog", "") if o.startswith("manual") else "":
                 if ch in "XmMRK" or (ch == "N" and kind == "ctl"):
                     tags.append("L:op-" + ch)
+                if ch in _HUGE_COUNTS and kind == "ctl":
+                    tags.append("L:succs-count-saturates")
         prev = None
         for l in lines:
             _, w = tparse(l)
@@ -1086,7 +1105,8 @@ ALL_TR = ["L:kind-ctl", "L:via-builder", "L:via-new", "L:via-layer", "L:op-X", "
           "A:call-panic", "A:call-panic-through-handle", "A:call-panic-while-running", "A:call-panic-in-last-slot",
           "A:admitted-after-call-panic",
           "T:step", "T:skip", "T:switch", "T:refused", "T:two-releases-pending", "T:leftover-dropped",
-          "L:factor-nondyadic", "A:factor-nondyadic"] + (["L:weak-turn", "T:weak-turn"] if _WEAK else [])
+          "L:factor-nondyadic", "A:factor-nondyadic",
+          "L:step-saturates", "A:step-saturates", "L:succs-count-saturates"] + (["L:weak-turn", "T:weak-turn"] if _WEAK else [])
 
 LEVEL_NOTE = ("Trusted: Lean kernel; the transcription of aimd.rs / algorithm.rs (one model step per atomic operation, in program order) in "
               "TR.Model.Limit and of service.rs in TR.Model.Adaptive, validated only by the sampled correspondence check (the algorithms run the same "
@@ -1117,7 +1137,9 @@ SPECS = {
         "lean_files": ["TR.Model.Limit", "TR.Model.LimitTrace", "TR.Model.Adaptive", "TR.Model.AdaptiveMulti", "TR.Lemmas.Limit", "TR.Lemmas.LimitTrace", "TR.Lemmas.Adaptive", "TR.Lemmas.AdaptiveMulti", "TR.Mutants.AdaptiveNoGuard"],
         "sizes": (600, 30000),
         "rule": "two kinds of seeded cases, mixed 1:1. `limit …`: AIMD / Vegas (and, in 20 %, the bare AimdController `kind=ctl`: record_successes(k) with "
-                "k in 0..9 incl. batches just below the ceiling, reset(), clone(), config()) built through one of three construction paths (`via=`: the "
+                "k in 0..9 incl. batches just below the ceiling, and k in {usize::MAX, usize::MAX-1, 2^63, 2^32, usize::MAX/2} (`N<a..e>`), reset(), "
+                "clone(), config(); increase_by 1..3, and in 20 % (service cases 12 %) a step at which the usize arithmetic saturates: usize::MAX, "
+                "usize::MAX-1, usize::MAX-(0..max+3), usize::MAX-initial(+1), 2^63(+0..3), usize::MAX/2, 2^31..2^62) built through one of three construction paths (`via=`: the "
                 "algorithm's builder, Aimd::new(AimdConfig..) / Vegas::new(..) / AimdConfig::new().with_.., or the builders of "
                 "AdaptiveLimiterLayer::builder().aimd() / .vegas()), programs that also use record_dropped(), min_limit(), max_limit() (0 / 10 / 25 % of the "
                 "operations; 30-70 % for the controller), 1-3 rounds of 1-3 OS threads "
